@@ -22,6 +22,11 @@
 //!                              `U<i>:<n>` repeat token i n times. Tokens: `(`, `)`, runs of
 //!                              blanks, runs of other characters.
 //!   `pt <text>`                literal property-list text (`\n`, `\\`, `\xHH` escapes).
+//!   `pn <n> <text>`            the text followed by n opening parentheses (nesting depth).
+//!
+//! Texts nested deeper than 20 000 are run in a child process (a stack overflow aborts the
+//! process and cannot be caught); the abort is reported as `impl-panic` with signature
+//! `abort: stack overflow on a deeply nested property list`.
 //!
 //! Byte cases: real `RawFile::deserialize` (I) vs the Lean model `rawCore false` (M), the Lean
 //! spec `layoutOKB` on the real slice bounds (S); then the whole `tfm::algorithms::tfm_to_pl`
@@ -147,6 +152,22 @@ fn tokens(s: &str) -> Vec<String> {
     out
 }
 
+/// Texts with more unclosed '(' than this are run in a child process.
+const NEST_LIMIT: usize = 20_000;
+
+fn max_depth(s: &str) -> usize {
+    let (mut d, mut m) = (0usize, 0usize);
+    for c in s.bytes() {
+        if c == b'(' {
+            d += 1;
+            m = m.max(d);
+        } else if c == b')' {
+            d = d.saturating_sub(1);
+        }
+    }
+    m
+}
+
 fn header_word(b: &[u8], i: usize) -> i64 {
     i16::from_be_bytes([b[2 * i], b[2 * i + 1]]) as i64
 }
@@ -160,6 +181,8 @@ struct C10 {
     files: BTreeMap<String, Vec<u8>>,
     /// header-word values evaluated inside `hs` sweeps (one case = up to 256 values)
     header_values: u64,
+    /// path of the Lean driver (for the child process that runs deeply nested texts)
+    driver: String,
 }
 
 
@@ -422,6 +445,11 @@ impl C10 {
     fn text_of_case(&mut self, cmd: &str, rest: &str) -> String {
         match cmd {
             "pt" => unesc(rest),
+            "pn" => {
+                let (n, prefix) = rest.split_once(' ').unwrap_or((rest, ""));
+                let n: usize = n.parse().expect("pn count");
+                format!("{}{}", unesc(prefix), "(".repeat(n))
+            }
             "p" => {
                 let mut w = rest.split(' ');
                 let src = String::from_utf8_lossy(&self.load(w.next().unwrap())).into_owned();
@@ -609,6 +637,47 @@ impl C10 {
         }
         if !c.pieces_ok {
             out.fail(Kind::ImplVsSpec, &stream, "extensible piece names a nonexistent character after validate_and_fix", String::new());
+        }
+    }
+
+    fn run_in_child(&mut self, case: &str, depth: usize, out: &mut CaseOutcome) {
+        let exe = std::env::current_exe().expect("current_exe");
+        let res = std::process::Command::new(exe)
+            .args(["--driver", &self.driver, "--repo", &self.repo, "--replay-case", case])
+            .env("C10_CHILD", "1")
+            .env("RUST_BACKTRACE", "0")
+            .output()
+            .expect("spawn child");
+        let stdout = String::from_utf8_lossy(&res.stdout).into_owned();
+        match res.status.code() {
+            Some(0) => {}
+            Some(1) => {
+                // ordinary failures found by the child: pass them on
+                for l in stdout.lines() {
+                    if let Some(r) = l.strip_prefix("replay: ") {
+                        let mut w = r.splitn(3, ' ');
+                        let kind = match w.next() {
+                            Some("impl-panic") => Kind::ImplPanic,
+                            Some("impl-vs-spec") => Kind::ImplVsSpec,
+                            Some("impl-vs-model") => Kind::ImplVsModel,
+                            _ => continue,
+                        };
+                        let stream = w.next().unwrap_or("").trim_start_matches("stream=").to_string();
+                        let sig = w.next().unwrap_or("").trim_start_matches("signature=").to_string();
+                        out.fail(kind, &stream, sig, "found in the child process (deeply nested text)".to_string());
+                    }
+                }
+            }
+            other => {
+                let err = String::from_utf8_lossy(&res.stderr).into_owned();
+                let what = if err.contains("overflowed its stack") { "stack overflow" } else { "abnormal exit" };
+                out.fail(
+                    Kind::ImplPanic,
+                    "pltotf",
+                    format!("abort: {what} on a deeply nested property list"),
+                    format!("the process running pl_to_tfm died ({other:?}, {what}) on a text with {depth} unclosed '(': {}", err.lines().next().unwrap_or("")),
+                );
+            }
         }
     }
 
@@ -876,6 +945,10 @@ impl Property for C10 {
         v.push("pt (".into());
         v.push("pt )".into());
         v.push("pt (HEADER D 300 O 1)(HEADER D 17 O 1)(HEADER D 18 O 1)(HEADER D 255 O 1)".into());
+        // nesting depth: in process up to NEST_LIMIT, in a child process beyond
+        v.push("pn 1000 ".into());
+        v.push("pn 20000 (CHARACTER C A ".into());
+        v.push("pn 400000 ".into());
         v
     }
 
@@ -1034,7 +1107,7 @@ impl Property for C10 {
             }
             let big = *len > 20_000;
             let n_mut = match (th, big) {
-                (true, false) => 1500,
+                (true, false) => 1000,
                 (true, true) => 150,
                 (false, false) => 60,
                 (false, true) => 3,
@@ -1062,7 +1135,7 @@ impl Property for C10 {
 
         // ---- pt: grammar ------------------------------------------------------------------
         let mut r = rng.fork();
-        let n_pt = if th { 150_000 } else { 9_000 };
+        let n_pt = if th { 100_000 } else { 8_000 };
         for _ in 0..n_pt {
             v.push(format!("pt {}", esc(&gen_pl(&mut r))));
         }
@@ -1171,10 +1244,18 @@ impl Property for C10 {
                     }
                 }
             }
-            "p" | "pt" => {
+            "p" | "pt" | "pn" => {
                 let text = self.text_of_case(cmd, rest);
                 out.nontrivial = text.contains('(');
                 out.tag(format!("case:{cmd}"));
+                // A stack overflow kills the process and cannot be caught: texts nested deeper
+                // than NEST_LIMIT run in a child process (this binary, `--replay-case`).
+                let depth = max_depth(&text);
+                if depth > NEST_LIMIT && std::env::var("C10_CHILD").is_err() {
+                    out.tag("text:deeply-nested-in-child-process");
+                    self.run_in_child(case, depth, &mut out);
+                    return out;
+                }
                 if cmd == "p" {
                     for m in rest.split(' ').skip(1) {
                         out.tag(format!("p:mut-{}", &m[..1]));
@@ -1206,7 +1287,7 @@ impl Property for C10 {
                 }
                 if cmd == "p" {
                     // turn into literal text (shrinks further as pt) when the list is small
-                    let mut me = C10 { repo: self.repo.clone(), files: Default::default(), header_values: 0 };
+                    let mut me = C10 { repo: self.repo.clone(), files: Default::default(), header_values: 0, driver: self.driver.clone() };
                     let text = me.text_of_case(cmd, rest);
                     if text.len() < 30_000 {
                         let e = esc(&text);
@@ -1280,6 +1361,18 @@ impl Property for C10 {
                     }
                 }
             }
+            "pn" => {
+                let (n, prefix) = rest.split_once(' ').unwrap_or((rest, ""));
+                let n: usize = n.parse().unwrap_or(0);
+                if !prefix.is_empty() {
+                    c.push(format!("pn {n} "));
+                }
+                for m in [n / 2, n * 3 / 4, n * 9 / 10] {
+                    if m > 0 && m < n {
+                        c.push(format!("pn {m} {prefix}"));
+                    }
+                }
+            }
             "hc" => {
                 let w: Vec<&str> = rest.split(' ').collect();
                 let (start, count, stride): (usize, usize, usize) = (w[4].parse().unwrap(), w[5].parse().unwrap(), w[6].parse().unwrap());
@@ -1335,10 +1428,10 @@ fn main() {
     if std::env::var("C10_DEBUG").as_deref() == Ok("gen") {
         // generator self-test (default panic hook still installed: messages are printed)
         let ctx = Ctx { thorough: args.tier == "thorough", tier: args.tier.clone(), seed: args.seed, repo: args.repo.clone(), verif: args.verif.clone(), jobs: 1 };
-        let mut p = C10 { repo: args.repo.clone(), files: Default::default(), header_values: 0 };
+        let mut p = C10 { repo: args.repo.clone(), files: Default::default(), header_values: 0, driver: args.driver.clone() };
         let v = p.generate(&ctx, &mut Rng::new(args.seed));
         println!("{} cases generated", v.len());
         return;
     }
-    run(C10 { repo: args.repo, files: Default::default(), header_values: 0 });
+    run(C10 { repo: args.repo, files: Default::default(), header_values: 0, driver: args.driver });
 }
